@@ -9,6 +9,7 @@ import PandoraModel.Model.CrossCheck
 import PandoraModel.Model.PyVecIdx
 import PandoraModel.Generated.KernelsCrossCheck
 import PandoraModel.Properties.C07
+import PandoraModel.Properties.C07HalfEven
 import Mathlib.Tactic.Linarith
 import Mathlib.Tactic.Ring
 import Mathlib.Tactic.Tauto
@@ -700,5 +701,77 @@ theorem crossCheckRow_generated_eq (P : Params) (dL dR : List Val) (mask : List 
     intro c hc
     exact conf_pointwise P dL dR (fun c => mask.getD c 0) c
 
+
+/-! ## Transfer of the specification to the generated definition -/
+
+theorem getD_map_range {α : Type} (d : α) (n : Nat) (g : Nat → α) (c : Nat) :
+    ((List.range n).map g).getD c d = if c < n then g c else d := by
+  rw [← getAt_natCast, getAt_map_range]
+
+theorem getD_ccRow (P : Params) (dL dR : List Val) (mask : List Nat) (c : Nat) (hc : c < dL.length) (d : PixOut) :
+    (ccRow .ruleFix P dL dR mask).getD c d = ccPixel .ruleFix P dL.length dL dR c (mask.getD c 0) := by
+  simp only [ccRow]
+  rw [getD_map_range, if_pos hc]
+
+/-- **every clause of the statement holds of what the generated row function returns** (both readings of `round`): the
+    function returns the flag words and band values of a row `out` of per-pixel outputs, and at every column every clause of
+    `clausesPix` — `kept_iff_consistent`, `mismatch_iff_witness`, `occlusion_otherwise`, `never_both`, `only_bits_8_9`,
+    `conf_band_value`, `invalid_not_reexamined` — and of the half-even `clausesPixEven` is true of `out[c]` -/
+theorem generated_row_clauses (P : Params) (dL dR : List Val) (mask : List Nat)
+    (hm : mask.length = dL.length) (hr : dR.length = dL.length) (hu : ∀ f ∈ mask, f < 65536)
+    (hn : dL.length ≤ 2 ^ 63) :
+    ∃ out : List PixOut,
+      crossCheckRow mask (embedRow dL) (embedRow dR) (.fin P.threshold) (arange P.dmin P.dmax)
+        = .ok (out.map (·.flag), out.map (fun o => confFl o.conf)) ∧
+      out.length = dL.length ∧
+      ∀ c, c < dL.length →
+        (∀ cl ∈ clausesPix P false dL dR c (mask.getD c 0) (out.getD c ⟨0, .nan⟩), cl.2 = true) ∧
+        (∀ cl ∈ clausesPixEven P false dL dR c (mask.getD c 0) (out.getD c ⟨0, .nan⟩), cl.2 = true) := by
+  refine ⟨ccRow .ruleFix P dL dR mask, crossCheckRow_generated_eq P dL dR mask hm hr hu hn, by simp [ccRow], ?_⟩
+  intro c hc
+  rw [getD_ccRow P dL dR mask c hc]
+  constructor
+  · have := C07.ccPixel_ruleFix_spec P dL.length dL dR c (mask.getD c 0) hr
+    simpa [allOK, List.all_eq_true] using this
+  · have := C07.ccPixel_ruleFix_specEven P dL.length dL dR c (mask.getD c 0) hr
+    simpa [allOK, List.all_eq_true] using this
+
+/-- **never_both / only_bits_8_9 on the returned flag row**: at a previously valid pixel the generated function never sets both
+    bit 8 and bit 9, and changes no other bit -/
+theorem generated_never_both (P : Params) (dL dR : List Val) (mask flags : List Nat) (band : List Fl)
+    (hm : mask.length = dL.length) (hr : dR.length = dL.length) (hu : ∀ f ∈ mask, f < 65536) (hn : dL.length ≤ 2 ^ 63)
+    (h : crossCheckRow mask (embedRow dL) (embedRow dR) (.fin P.threshold) (arange P.dmin P.dmax) = .ok (flags, band))
+    (c : Nat) (hc : c < dL.length) (hv : Flags.isInvalid (mask.getD c 0) = false) :
+    ¬(bitAt (flags.getD c 0) 8 = 1 ∧ bitAt (flags.getD c 0) 9 = 1)
+      ∧ sameExcept89 (flags.getD c 0) (mask.getD c 0) = true := by
+  rw [crossCheckRow_generated_eq P dL dR mask hm hr hu hn] at h
+  have hf : flags = (ccRow .ruleFix P dL dR mask).map (·.flag) := by
+    injection h with h; exact (Prod.mk.inj h).1.symm
+  have : flags.getD c 0 = (ccPixel .ruleFix P dL.length dL dR c (mask.getD c 0)).flag := by
+    rw [hf]
+    simp only [ccRow, List.map_map]
+    rw [getD_map_range, if_pos hc]; rfl
+  rw [this]
+  exact C07.ccPixel_never_both (V := .ruleFix) P dL.length dL dR c (mask.getD c 0) hv
+
+/-- **invalid_not_reexamined on the returned flag row** -/
+theorem generated_invalid_untouched (P : Params) (dL dR : List Val) (mask flags : List Nat) (band : List Fl)
+    (hm : mask.length = dL.length) (hr : dR.length = dL.length) (hu : ∀ f ∈ mask, f < 65536) (hn : dL.length ≤ 2 ^ 63)
+    (h : crossCheckRow mask (embedRow dL) (embedRow dR) (.fin P.threshold) (arange P.dmin P.dmax) = .ok (flags, band))
+    (c : Nat) (hc : c < dL.length) (hv : Flags.isInvalid (mask.getD c 0) = true) :
+    flags.getD c 0 = mask.getD c 0 := by
+  rw [crossCheckRow_generated_eq P dL dR mask hm hr hu hn] at h
+  have hf : flags = (ccRow .ruleFix P dL dR mask).map (·.flag) := by
+    injection h with h; exact (Prod.mk.inj h).1.symm
+  rw [hf]
+  simp only [ccRow, List.map_map]
+  rw [getD_map_range, if_pos hc]
+  simp only [Function.comp, ccPixel, hv, if_true]
+
+/-- non-vacuity: a row satisfying the hypotheses (the five-pixel row of the table) -/
+example : ([0, 0, 0, 1, 0] : List Nat).length = ([Val.num 0, .num 1, .num (-1), .num 0, .nan] : List Val).length
+    ∧ (∀ f ∈ ([0, 0, 0, 1, 0] : List Nat), f < 65536)
+    ∧ ([Val.num 0, .num 1, .num (-1), .num 0, .nan] : List Val).length ≤ 2 ^ 63 := by
+  refine ⟨rfl, by decide, by norm_num⟩
 
 end Pandora.C07Kernels
